@@ -1,6 +1,7 @@
 package vx
 
 import (
+	"fmt"
 	"errors"
 	"time"
 
@@ -12,6 +13,7 @@ import (
 )
 
 var errVerifConsumer = errors.New("verif: the consumer above failed")
+var errInjected = errors.New("verif: the input failed")
 
 // failingSink accepts FailAt records and fails on the next one (what an operator above — a failing
 // expression in a Map/Filter over a subquery, a failing output — does to the operator below it).
@@ -81,4 +83,75 @@ func VerifC06ConsumerFails() {
 		zzverif.Assert(err != nil, "failure-of-the-consumer-above-is-returned")
 	}
 	_ = time.Time{}
+}
+
+// VerifC06JoinFullBuffer (C06): one input of a StreamJoin (KIND 0) / OuterJoin (KIND 1) delivers
+// exactly N records and then fails; the other input has OTHER symbolic rows. N is chosen around the
+// capacity of the join's input channels (10 000 in stream_join.go / outer_join.go): under the
+// engine's scheduler the producer goroutine runs until its channel is full before the join loop
+// takes the first message, so with N = capacity the failure arrives when the buffer is exactly
+// full. The join must return an error. SIDE 0: the left input fails, 1: the right one.
+func VerifC06JoinFullBuffer() {
+	zzverif.FixedSchedule(true) // the subject is the full buffer, not the receive order (C02/C19)
+	n, kind, side := zzverif.Param("N"), zzverif.Param("KIND"), zzverif.Param("SIDE")
+	msgs := make([]Msg, n)
+	for i := range msgs {
+		msgs[i] = Msg{Kind: MsgRecord, Rec: execution.Record{Values: []octosql.Value{octosql.NewInt(0), octosql.NewInt(int64(i))}}}
+	}
+	failing := NewScriptSource(msgs)
+	failing.FailAt = n
+	failing.Err = errInjected
+	var other []execution.Record
+	// the other input: 0..OTHER rows [key 0 or 1 (forked), symbolic Int|NULL]
+	for i, cnt := 0, zzverif.Choice("o.rows", zzverif.Param("OTHER")+1); i < cnt; i++ {
+		key := octosql.NewInt(int64(zzverif.Choice(fmt.Sprintf("o.r%d.key", i), 2)))
+		other = append(other, execution.Record{Values: []octosql.Value{key, NDCell(fmt.Sprintf("o.r%d.c", i))}})
+	}
+	healthy := NewScriptSource(RecordsToMsgs(other))
+	var failingNode execution.Node = failing
+	if !zzverif.Symbolic() {
+		// Native replay: reproduce the engine's schedule (the producer fills its channel before the
+		// join loop takes anything from it). The failing input starts only after the join loop has
+		// received the first message (or the end) of the OTHER input and is parked in the verif
+		// hook; the hook lets the loop continue shortly after the failing input's Run has returned.
+		parked, done := make(chan struct{}), make(chan struct{})
+		first := true
+		nodes.VerifJoinMessageReceived = func(s int) {
+			if first && s != side {
+				first = false
+				close(parked)
+				<-done
+				time.Sleep(200 * time.Millisecond)
+			}
+		}
+		defer func() { nodes.VerifJoinMessageReceived = nil }()
+		failingNode = &heldSource{inner: failing, start: parked, done: done}
+	}
+	var left, right execution.Node = failingNode, healthy
+	if side == 1 {
+		left, right = healthy, failingNode
+	}
+	v0 := execution.NewVariable(0, 0)
+	var node execution.Node
+	if kind == 0 {
+		node = nodes.NewStreamJoin(left, right, []execution.Expression{v0}, []execution.Expression{v0})
+	} else {
+		node = nodes.NewOuterJoin(left, right, 2, 2, []execution.Expression{v0}, []execution.Expression{v0}, true, true)
+	}
+	sink := &Sink{}
+	err := RunNode(node, sink)
+	zzverif.Reach("ran")
+	zzverif.Assert(err != nil, "input-failure-with-full-buffer-is-returned")
+}
+
+// heldSource starts its inner source when start is closed and closes done when it has returned.
+type heldSource struct {
+	inner       execution.Node
+	start, done chan struct{}
+}
+
+func (h *heldSource) Run(ctx execution.ExecutionContext, produce execution.ProduceFn, metaSend execution.MetaSendFn) error {
+	<-h.start
+	defer close(h.done)
+	return h.inner.Run(ctx, produce, metaSend)
 }
